@@ -125,7 +125,7 @@ func init() {
 	control(&Control{ID: "tokenkinds-ident", Rule: "TOKEN-KINDS", File: "larking/rules.go",
 		Old: "case tokenSlash, tokenStar, tokenStarStar, tokenLiteral:\n\t\t\t\t\t\tvars = append(vars, nxt)", New: "case tokenSlash, tokenStar, tokenStarStar, tokenLiteral, tokenIdent:\n\t\t\t\t\t\tvars = append(vars, nxt)", Expect: "append-to-pattern", Why: "a token kind the matcher panics on is stored in the pattern"})
 	control(&Control{ID: "statspure-return", Rule: "STATS-PURE", File: "larking/http.go",
-		Old: "\t\tstats.HandleRPC(s.ctx, outPayload(false, m, b, time.Now()))\n\t}\n\treturn nil\n}", New: "\t\tstats.HandleRPC(s.ctx, outPayload(false, m, b, time.Now()))\n\t\treturn nil\n\t}\n\treturn nil\n}", Expect: "stats-region/return", Why: "return inside a stats block"})
+		Old: "\t\tstats.HandleRPC(s.ctx, outPayload(false, m, b, time.Now()))\n\t}\n\treturn nil\n}", New: "\t\tstats.HandleRPC(s.ctx, outPayload(false, m, b, time.Now()))\n\t\treturn io.EOF\n\t}\n\treturn nil\n}", Expect: "stats-region/return", Why: "a different result is returned inside a stats block (a `return nil` there, identical to the one that follows, is behaviour-preserving and no longer reported)"})
 	control(&Control{ID: "statspure-slice", Rule: "STATS-PURE", File: "larking/grpc.go",
 		Old: "\t\tstats.HandleRPC(s.ctx, inPayload(false, m, b, time.Now()))", New: "\t\tstats.HandleRPC(s.ctx, inPayload(false, m, b[headerLen:], time.Now()))", Expect: "RecvMsg/stats-region/slice", Why: "restore D18"})
 
